@@ -670,11 +670,13 @@ def rule_sort_sites(ctx):
                 sites[(b["def_path"][len(NT):].split("::{")[0], c)] += 1
     want = {("p2f", "IntegerTerm::Variable"): 1, ("p2f_int_term", "IntegerTerm::Variable"): 1, ("natural_head_atom", "IntegerTerm::Variable"): 1,
             ("natural_head_interval", "IntegerTerm::Variable"): 1, ("natural_basic_head", "Sort::Integer"): 1, ("natural_choice_head", "Sort::Integer"): 1}
-    for k_, n in sorted(set(sites) | set(want)):
-        pass
-    for k_ in sorted(set(sites) | set(want)):
-        ctx.add("SORT-SITES", "%s:%s" % k_, sites.get(k_) == want.get(k_), "src/translating/formula_representation/natural.rs",
-                "integer-sorted variables are constructed in %s (%s): found %s, justified %s" % (k_[0], k_[1], sites.get(k_, 0), want.get(k_, 0)))
+    # per constructor kind: no more construction sites in natural.rs than the justified ones (a site that moved into a helper keeps the total)
+    for kind in sorted({k_[1] for k_ in set(sites) | set(want)}):
+        got = sum(v for k_, v in sites.items() if k_[1] == kind)
+        just = sum(v for k_, v in want.items() if k_[1] == kind)
+        where_ = sorted(k_[0] for k_ in sites if k_[1] == kind)
+        ctx.add("SORT-SITES", "total:%s" % kind, got <= just, "src/translating/formula_representation/natural.rs",
+                "%s is constructed at %d site(s) in natural.rs (%s); %d are justified (p2f under int_vars.contains, p2f_int_term inside arithmetic, the head-interval variables and their quantifier)" % (kind, got, where_, just))
     # p2f_int_term is only reachable for arithmetic terms: its callers
     callers = set()
     for b in fx.body_list:
